@@ -213,7 +213,8 @@ func (b *backendConfigSessionHandler) handlePluginMessage(pc *proto.PacketContex
 		_ = b.serverConn.player.WritePacket(plugin.RewriteMinecraftBrand(p,
 			b.serverConn.player.Protocol()))
 	} else {
-		bytes := pc.Payload
+		bytes := make([]byte, len(p.Data))
+		copy(bytes, p.Data)
 		id, ok := b.proxy().ChannelRegistrar().FromID(p.Channel)
 		if !ok {
 			b.forwardToPlayer(pc, nil)
@@ -228,6 +229,7 @@ func (b *backendConfigSessionHandler) handlePluginMessage(pc *proto.PacketContex
 			target:     b.serverConn.player,
 			identifier: id,
 			data:       bytes,
+			forward:    true,
 		}, func(pme *PluginMessageEvent) {
 			if pme.Allowed() && b.serverConn.active() {
 				b.forwardToPlayer(pc, &plugin.Message{
